@@ -351,7 +351,7 @@ func (x *G) N(lo, hi int, l string) int {
 }
 func (x *G) P(pc int, l string) bool { return int(rapid.Uint64().Draw(x.T, l)%100) < pc }
 
-var AtomPool = []string{"a", "b", "c", "[]", "", "é", "日本", "f", "g"}
+var AtomPool = []string{"a", "b", "c", "[]", "", "é", "日本", "f", "g", "\U0010FFFF", "\x00"}
 
 func (x *G) Atomic() *rt.Term {
 	switch k := x.N(0, 9, "atomic"); {
